@@ -24,7 +24,7 @@ if ROOT not in sys.path:
 OUT = os.environ.get("PYVC_OUT") or ROOT
 
 
-def _worker(job):
+def _worker(job, partial_path=None):
     pid, modname, index, tier, kind = job
     t0 = time.time()
     try:
@@ -37,6 +37,15 @@ def _worker(job):
         group = getattr(mod, "CANARIES", []) if kind == "canary" else every
         c = group[index]
         timeout = 30000 if tier == "quick" else 120000
+        # native samples first (fast; independent of the solver): kept in a side file so that they survive a job that is
+        # killed because a solver query does not come back
+        early_samples = []
+        if kind != "canary" and hasattr(c, "samples"):
+            for inputs in c.samples(tier):
+                early_samples.append(c.replay_custom(inputs) if hasattr(c, "replay_custom") else replay_inputs(c, inputs))
+            if partial_path:
+                with open(partial_path, "w") as f:
+                    json.dump(dict(label=getattr(c, "label", c.target), target=c.target, samples=early_samples), f, default=str)
         r = verify(c, contracts=every, timeout_ms=timeout)
         carved = []
         if kind != "canary" and any(ob["status"] != "unsat" for ob in r.obligations.values()):
@@ -77,10 +86,7 @@ def _worker(job):
             out["obligations"][name] = o
         # native samples: the contract evaluated on the real function for concrete inputs (cross-check of the
         # encoding + vacuity witnesses; bounded, never counted as proof)
-        if kind != "canary" and hasattr(c, "samples"):
-            for inputs in c.samples(tier):
-                rep = c.replay_custom(inputs) if hasattr(c, "replay_custom") else replay_inputs(c, inputs)
-                out["samples"].append(rep)
+        out["samples"] = early_samples
         out["wall"] = time.time() - t0
         return out
     except Exception as e:   # noqa
@@ -91,7 +97,7 @@ def _worker(job):
 
 def _child(job, path):
     try:
-        out = _worker(job)
+        out = _worker(job, path + ".partial")
     finally:
         from pyvc.source import cleanup_generated
         cleanup_generated()
@@ -122,6 +128,11 @@ def run_jobs(jobs, n, job_timeout):
                 p.kill()
                 p.join()
                 results[i] = _crash(job, f"job exceeded {job_timeout}s and was killed")
+                try:
+                    part = json.load(open(path + ".partial"))
+                    results[i].update(label=part["label"], target=part["target"], samples=part["samples"])
+                except Exception:   # noqa
+                    pass
             else:
                 p.join()
                 try:
@@ -180,7 +191,7 @@ def main(argv=None):
         for i, c in enumerate(getattr(mod, "CANARIES", [])):
             if pid in c.props and not args.only:
                 jobs.append((pid, modname, i, tier, "canary"))
-    results = run_jobs(jobs, max(1, args.jobs), 1500 if tier == "quick" else 5400)
+    results = run_jobs(jobs, max(1, args.jobs), 780 if tier == "quick" else 5400)
 
     # a recorded finding is keyed by function/clause/region, whichever property's check re-derives it
     findings = [f for f in load_findings() if f.get("status", "open") == "open"]
@@ -196,12 +207,40 @@ def main(argv=None):
     n_samples = n_samples_nontrivial = 0
     matched_findings = set()
 
+    def process_samples(r, label):
+        nonlocal n_samples, n_samples_nontrivial
+        for rep in r["samples"]:
+            n_samples += 1
+            if rep.get("error"):
+                failures.append(f"{label}: sample replay crashed: {rep['error'][:600]}")
+                continue
+            if rep.get("pre_ok"):
+                n_samples_nontrivial += 1
+            if rep.get("representation_only") and not rep.get("failed"):
+                undecided.append(f"{label}: sample {rep['representation_only'][0]}: the returned representation differs from the specified one but denotes an equal object")
+            if rep.get("failed"):
+                kf = match_finding(findings, r["target"], rep["failed"][0], rep, None)
+                if kf is not None:
+                    matched_findings.add(kf["id"])
+                    known_lines.append((kf, f"{pid}/{r['target']}/{rep['failed'][0]}", rep))
+                    continue
+                rfile = os.path.join(OUT, "replays", pid, _safe(f"{r['target']}__sample_{n_samples}") + ".json")
+                json.dump(dict(property=pid, obligation=f"{pid}/{r['target']}/{rep['failed'][0]}", function=r["target"],
+                               status="bounded sample failed on the real code", replays=[rep], contract_module=r["module"],
+                               label=label), open(rfile, "w"), indent=1, default=str)
+                violations.append((f"{pid}/{r['target']}/{rep['failed'][0]}", rfile, True))
+
+
     for r in results:
         label = r["label"]
         if r.get("error"):
             if str(r["error"]).startswith("target not found"):
                 # the function under contract was renamed or removed: its obligations cannot be generated (undecided)
                 undecided.append(f"{label}: {r['error']} - the contract no longer has a function to apply to")
+            elif "and was killed" in str(r["error"]):
+                # the verification of this function did not finish within the job's time limit: nothing is known about it
+                undecided.append(f"{label}: {r['error']} (not decided within the time limit)")
+                process_samples(r, label)       # the native samples ran before the verification and stand on their own
             else:
                 failures.append(f"{label}: {r['error']}")
             continue
@@ -277,26 +316,7 @@ def main(argv=None):
                            detail=o["detail"], replays=o["replays"], contract_module=r["module"], label=label)
             json.dump(payload, open(rfile, "w"), indent=1, default=str)
             violations.append((full, rfile, confirmed is not None))
-        for rep in r["samples"]:
-            n_samples += 1
-            if rep.get("error"):
-                failures.append(f"{label}: sample replay crashed: {rep['error'][:600]}")
-                continue
-            if rep.get("pre_ok"):
-                n_samples_nontrivial += 1
-            if rep.get("representation_only") and not rep.get("failed"):
-                undecided.append(f"{label}: sample {rep['representation_only'][0]}: the returned representation differs from the specified one but denotes an equal object")
-            if rep.get("failed"):
-                kf = match_finding(findings, r["target"], rep["failed"][0], rep, None)
-                if kf is not None:
-                    matched_findings.add(kf["id"])
-                    known_lines.append((kf, f"{pid}/{r['target']}/{rep['failed'][0]}", rep))
-                    continue
-                rfile = os.path.join(OUT, "replays", pid, _safe(f"{r['target']}__sample_{n_samples}") + ".json")
-                json.dump(dict(property=pid, obligation=f"{pid}/{r['target']}/{rep['failed'][0]}", function=r["target"],
-                               status="bounded sample failed on the real code", replays=[rep], contract_module=r["module"],
-                               label=label), open(rfile, "w"), indent=1, default=str)
-                violations.append((f"{pid}/{r['target']}/{rep['failed'][0]}", rfile, True))
+        process_samples(r, label)
 
     # order-dependence obligations generated from whole modules (ghost `ord` flag, see ordscan.py)
     ord_assumed = []
@@ -397,10 +417,10 @@ def main(argv=None):
     json.dump(evidence, open(os.path.join(OUT, "evidence", f"{pid}.json"), "w"), indent=1, default=str)
     print(f"{pid}: obligations={n_obl} discharged={n_dis} known-findings={known_count} violations={len(violations)} "
           f"undecided={len(undecided)} functions={len(per_fn)} wall={wall:.1f}s")
+    if violations:
+        return 1          # (a violation stands, whatever else went wrong in the same run)
     if failures:
         return 3
-    if violations:
-        return 1
     if undecided:
         return 2
     return 0
